@@ -1,7 +1,7 @@
 PROP = {
     "id": "C09",
     "theorem_modules": ["Verif.Properties.C09"],
-    "min_theorems": 8,
+    "min_theorems": 13,
     "required_theorems": [
         "Verif.Properties.C09.cast_iff_instance_partial",
         "Verif.Properties.C09.cast_result_is_value_partial",
@@ -11,6 +11,11 @@ PROP = {
         "Verif.Properties.C09.force_iff",
         "Verif.Properties.C09.unwrap_rule",
         "Verif.Properties.C09.unwrap_rule_any",
+        "Verif.Properties.C09.cast_result_type",
+        "Verif.Properties.C09.engines_agree_partial",
+        "Verif.Properties.C09.engines_agree_kindstable_partial",
+        "Verif.Properties.C09.nil_anyresource_witness",
+        "Verif.Properties.C09.force_iff_vm",
     ],
     "gen": [["vtool", "gen-rules"]],
     "tool_files": ["tool_rules.go"],
@@ -27,16 +32,30 @@ PROP = {
                   "subtype of the target iff getType().isSubtype, and the result is the converted, boxed value (cast_iff_instance_partial); it is "
                   "the value itself for reference-free types and non-optional targets (cast_result_is_value_partial); `as!` fails exactly when "
                   "`as?` has no result (force_iff); optionals are unwrapped at every depth unless the target is AnyStruct/AnyResource or an optional "
-                  "of them (unwrap_rule, unwrap_rule_any). Tied to /repo by the `cast` stream: the full cross product of 43 values (numbers, strings, "
-                  "paths, types, arrays, dictionaries, composites, enums, functions, capabilities, nested optionals, ephemeral references with "
-                  "every authorization shape, arrays of references) x 76 target types x both engines, two scripts per pair (`as?`+isInstance+"
-                  "getType, and `as!`), compared with the model and judged directly (the four observations must be mutually consistent).",
+                  "of them (unwrap_rule, unwrap_rule_any), and the value a successful cast yields is the original innermost value with max(n, m) "
+                  "optional layers for AnyStruct/AnyResource targets and m layers otherwise, for every non-nil value of a reference-free type, "
+                  "resources included (cast_result_type; its run-time type is specResultType, the rule stated without the ported code); the VM's "
+                  "casts (run-time relation on static types) equal the interpreter's (checker's relation) whenever the value the cast looks at is "
+                  "not of an optional type, or is of a well-formed kind-stable Any-free type (engines_agree_partial, "
+                  "engines_agree_kindstable_partial, force_iff_vm). Tied to /repo by the `cast` stream: (1) the full cross product of 56 values "
+                  "(numbers, strings, paths, types, arrays, dictionaries, composites, enums, functions, capabilities, nested optionals, ephemeral "
+                  "references with every authorization shape incl. two-entitlement conjunctions and disjunctions, arrays / dictionaries / "
+                  "optionals of such references) x 98 target types (incl. overlapping two- and three-entitlement sets E,F / E,G / F,G / E|F / "
+                  "E|G at top level and nested) x both engines, two scripts per pair (`as?`+isInstance+getType+the result's run-time type, and "
+                  "`as!`); (2) 26 resource values (plain, up to three optional layers, nil, statically typed as interface / AnyResource, nested "
+                  "in arrays and dictionaries) x 30 resource target types (AnyResource with 0-3 optional layers, R, R?, {RI}, containers ...), "
+                  "each operation running both engines: the script creates the resource, asks isInstance / getType, moves it into `as?` (second "
+                  "script: `as!`), asks the result for getType().identifier and isInstance of 9 probe types, destroys it. Every line is compared "
+                  "with the model (interpreter and VM variants) and judged directly: as! vs as?, as? = isInstance = getType().isSubtype for "
+                  "non-optional values, as! and as? results alike, the result's run-time type = specResultType (the optional rule), both "
+                  "engines' observations identical.",
     "level_note": "Partial: ephemeral references are excluded from the equivalence (known finding isinstance-forwarded-through-reference); "
                   "'yields the original value' holds only for reference-free types (known finding cast-narrows-nested-authorizations); a nil value "
-                  "cast to an optional type succeeds with nil (known finding nil-cast-to-optional-observed-as-nil). Storage references and their "
-                  "borrow-type replacement rule, resources (move semantics of casts), attachments and the numeric arms of convert are outside the "
-                  "model; values carry their static type, contents are opaque. The VM is represented by the same model (opFailableCast/opForceCast "
-                  "are compared through the stream only).",
+                  "cast to an optional type succeeds with nil (known finding nil-cast-to-optional-observed-as-nil); the engines disagree on a nil "
+                  "resource optional cast to AnyResource (known finding nil-cast-to-anyresource-engines-disagree). Storage references and their "
+                  "borrow-type replacement rule, the move semantics of resource casts (resources are values with a resource-kinded type), "
+                  "attachments and the numeric arms of convert are outside the model; values carry their static type, contents are opaque. The "
+                  "VM differs from the interpreter in the model only by the relation it asks (castFailableVM / castForceVM).",
     "assumptions": ["referents of ephemeral references contain no nested references (StaticType() of a reference rewrites nested authorizations)",
                     "fuel of the rule interpreter suffices (validated by the stream)"],
     "trusted_base": ["hand-written port Verif.Model.Cast validated by stream cast", "rule interpreter Verif.Model.Types.Subtype (C08)",
